@@ -195,6 +195,11 @@ def backend_sampling(rep, g, tier):
             if out["outcome"] == 1:
                 stats["singular_raised"] += 1
             elif kind == 0:
+                # an all-zero row and column: the direct solver must fail loudly
+                rep.failure("linsolve:singular_not_reported", "LU returned a vector for a structurally singular system instead of raising LinearSolverError",
+                            {"kind": "oracle", "unit": "linsolve_real", "case": case, "impl": out})
+                continue
+            elif False:
                 v = np.array(out["sol"])
                 if not np.all(np.isfinite(v)):
                     rep.failure("linsolve:nonfinite", "LU returned a non-finite vector for a structurally singular system",
